@@ -749,7 +749,42 @@ def _build_field_loop(fname):
     return build
 
 
-BUILDERS = {"field_first_parse": _build_field_loop("field_first_parse"), "data_first_parse": _build_field_loop("data_first_parse"),
+def build_schema_setitem_additional(world, params):
+    """item assignment under a key that is no declared field: a real Schema class without fields, addition policy / type from
+    the parser record"""
+    from utype import Schema
+    from utype.parser.options import Options
+    sd = params["self"].get("fields", {})
+    pd = sd.get("__parser__", {}).get("fields", {})
+    opts = world.build_options(pd.get("options", {"fields": {}}))
+    at = pd.get("addition_type", {"none": True})
+    if "t" in at:
+        kw = dict(opts._options)
+        kw["addition"] = world.build(at)
+        opts = Options(**kw)
+    S = type("ReplaySchema", (Schema,), {"__options__": opts, "__annotations__": {}})
+    if ("t" in at) != bool(S.__parser__.addition_type):
+        raise Unbuildable("the parser did not pick up the addition type")
+    inst = S.__new__(S)
+
+    def keyname(k):
+        return k["lit"] if isinstance(k.get("lit"), str) else "key_%s" % (k.get("v", "x"),)
+    for k, v in (sd.get("__data__", {}).get("map") or []):
+        dict.__setitem__(inst, keyname(k), world.build(v))
+    for k, v in (sd.get("__dict__", {}).get("map") or []):
+        inst.__dict__[keyname(k)] = world.build(v)
+    inst.__options__ = world.build_options(sd.get("__options__", {"fields": {}})) if sd.get("__options__") else opts
+    alias = world.build(params["alias"])
+    if not isinstance(alias, str) or S.__parser__.get_field(alias):
+        raise Unbuildable("the key is not a plain unknown name")
+
+    def is_field_name(parser, name):
+        return bool(S.__parser__.get_field(name))
+    extra = dict(self=_SelfView(inst), is_field_name=is_field_name, **_schema_helpers())
+    return inst.__setitem__, dict(alias=alias, value=world.build(params["value"])), extra
+
+
+BUILDERS = {"schema_setitem_additional": build_schema_setitem_additional, "field_first_parse": _build_field_loop("field_first_parse"), "data_first_parse": _build_field_loop("data_first_parse"),
             "rule_parse": build_rule_parse, "schema_setter": build_schema_setter, "schema_deleter": build_schema_deleter, "parse_pos_type": build_parse_pos_type, "parse_addition": build_parse_addition, "apply": build_apply, "call": build_call, "seq_args": build_seq_args, "tuple_args": build_tuple_args, "map_args": build_map_args, "contains": build_contains,
             "logical_parse": build_logical_parse, "parse_value": build_parse_value, "parse_output_value": build_parse_output_value}
 
